@@ -557,8 +557,9 @@ fn compile_depth(
             if let Expr::Value(value) = expr.as_ref() {
                 match value {
                     Value::Ident(ident) => {
+                        // the same test the type check made when the expression was parsed: aliases are looked through
                         let x = ident.ty().context("no type data")?;
-                        if !x.supports_negate() {
+                        if !x.disregard_distractors(false).supports_negate() {
                             bail!("cannot negate")
                         }
                     }
